@@ -38,47 +38,10 @@ theorem C05_no_panic_false_original :
 
 /-! ## conflicts between two services are rejected, in both orders -/
 
-/-- facts of every schema gqlparser loads -/
-structure Loaded (S : Schema) : Prop where
-  types : TypesNodup S
-  fields : FieldsNodup S
-  roots : RootsAreObjects S
-
-def Rejected2 (A B : MergeInput) : Prop :=
-  (∃ e, mergeSchema facts [A, B] = .error e) ∧ (∃ e, mergeSchema facts [B, A] = .error e)
-
-theorem rejected2_of {A B : MergeInput} (hA : Loaded A.schema) (hB : Loaded B.schema) {a b : TypeDef}
-    (hs : Shared A.schema B.schema a b)
-    (h1 : ∃ e, mergeDef E A.schema B.schema a b = .error e) (h2 : ∃ e, mergeDef E B.schema A.schema b a = .error e) :
-    Rejected2 A B := by
-  obtain ⟨ha, hb, hn, hbn, _⟩ := hs
-  unfold Rejected2
-  rw [C05_facts]
-  exact ⟨reject_pair hA.types hB.types ha hb hn (hn ▸ hbn) h1, reject_pair hB.types hA.types hb ha hn.symm hbn h2⟩
-
-theorem composite_not {k : Kind} (h : composite k = true) : k ≠ .scalar ∧ k ≠ .union := by
-  cases k <;> simp [composite] at h ⊢
-
-/-- shared composite non-root type on which `mergeCustomObjectFields(a, b)` fails -/
-theorem rejected2_custom {A B : MergeInput} (hA : Loaded A.schema) (hB : Loaded B.schema) {a b : TypeDef}
-    (hs : Shared A.schema B.schema a b) (hk : a.kind = b.kind) (hc : composite a.kind = true)
-    (hr : isRootName a.name = false)
-    (herr : implementsNode a = implementsNode b → ∃ e, mergeCustomObjectFields E a b = .error e) : Rejected2 A B := by
-  obtain ⟨hcs, hcu⟩ := composite_not hc
-  have hn := hs.2.2.1
-  have hN := hs.2.2.2.2
-  apply rejected2_of hA hB hs
-  · apply mergeDef_err_of hn (hn ▸ hN) hk.symm (hk ▸ hcs) (hk ▸ hcu)
-    · intro h; rw [← hn, hr] at h; cases h
-    · intro _ hi; exact mergeCustomObjects_err_right (herr hi.symm)
-  · apply mergeDef_err_of hn.symm hN hk hcs hcu
-    · intro h; rw [hr] at h; cases h
-    · intro _ hi; exact mergeCustomObjects_err_left (herr hi)
-
 /-- C05, the same root field declared twice -/
 theorem C05_conflict_rejected_root_field (A B : MergeInput) (hA : Loaded A.schema) (hB : Loaded B.schema)
-    (h : RootFieldTwice facts A.schema B.schema) : Rejected2 A B := by
-  rw [C05_facts] at h
+    (h : RootFieldTwice facts A.schema B.schema) : Rejected2 facts A B := by
+  rw [C05_facts] at h ⊢
   obtain ⟨a, b, hs, hk, hr, f, hf, g, hg, hfg, hfb, hnode⟩ := h
   have hn := hs.2.2.1
   have hN := hs.2.2.2.2
@@ -103,7 +66,8 @@ theorem C05_conflict_rejected_root_field (A B : MergeInput) (hA : Loaded A.schem
 
 /-- C05, one name used for different kinds -/
 theorem C05_conflict_rejected_kind (A B : MergeInput) (hA : Loaded A.schema) (hB : Loaded B.schema)
-    (h : KindMismatch A.schema B.schema) : Rejected2 A B := by
+    (h : KindMismatch A.schema B.schema) : Rejected2 facts A B := by
+  rw [C05_facts]
   obtain ⟨a, b, hs, hk⟩ := h
   have hn := hs.2.2.1
   have hN := hs.2.2.2.2
@@ -111,7 +75,8 @@ theorem C05_conflict_rejected_kind (A B : MergeInput) (hA : Loaded A.schema) (hB
 
 /-- C05, a type that implements Node in one service but not in another -/
 theorem C05_conflict_rejected_node_impl (A B : MergeInput) (hA : Loaded A.schema) (hB : Loaded B.schema)
-    (h : NodeImplMismatch A.schema B.schema) : Rejected2 A B := by
+    (h : NodeImplMismatch A.schema B.schema) : Rejected2 facts A B := by
+  rw [C05_facts]
   obtain ⟨a, b, hs, hk, hc, hi⟩ := h
   obtain ⟨hcs, hcu⟩ := composite_not hc
   have hn := hs.2.2.1
@@ -122,7 +87,8 @@ theorem C05_conflict_rejected_node_impl (A B : MergeInput) (hA : Loaded A.schema
 
 /-- C05, a Node type with a non-`id` field declared by two services -/
 theorem C05_conflict_rejected_node_field (A B : MergeInput) (hA : Loaded A.schema) (hB : Loaded B.schema)
-    (h : NodeFieldTwice A.schema B.schema) : Rejected2 A B := by
+    (h : NodeFieldTwice A.schema B.schema) : Rejected2 facts A B := by
+  rw [C05_facts]
   obtain ⟨a, b, hs, hk, hc, hr, hNa, _, f, hf, g, hg, hfg, hfb, hid⟩ := h
   apply rejected2_custom hA hB hs hk hc hr
   intro _
@@ -131,7 +97,8 @@ theorem C05_conflict_rejected_node_field (A B : MergeInput) (hA : Loaded A.schem
 /-- C05, a shared plain type or input that is neither identical nor disjoint (the extra field on
     either side: apply with the services swapped for the other side) -/
 theorem C05_conflict_rejected_partial (A B : MergeInput) (hA : Loaded A.schema) (hB : Loaded B.schema)
-    (h : NeitherIdenticalNorDisjoint A.schema B.schema) : Rejected2 A B := by
+    (h : NeitherIdenticalNorDisjoint A.schema B.schema) : Rejected2 facts A B := by
+  rw [C05_facts]
   obtain ⟨a, b, hs, hk, hc, hr, ⟨f, hf, g, hg, hfg, hfb, hid⟩, ⟨g', hg', hgb', hno⟩⟩ := h
   apply rejected2_custom hA hB hs hk hc hr
   intro _
@@ -139,7 +106,8 @@ theorem C05_conflict_rejected_partial (A B : MergeInput) (hA : Loaded A.schema) 
 
 /-- C05, a shared field with different type or arguments -/
 theorem C05_conflict_rejected_signature (A B : MergeInput) (hA : Loaded A.schema) (hB : Loaded B.schema)
-    (h : FieldSignatureDiffers A.schema B.schema) : Rejected2 A B := by
+    (h : FieldSignatureDiffers A.schema B.schema) : Rejected2 facts A B := by
+  rw [C05_facts]
   obtain ⟨a, b, hs, hk, hc, hr, f, hf, g, hg, hfg, hfb, hsig⟩ := h
   apply rejected2_custom hA hB hs hk hc hr
   intro _
@@ -147,7 +115,8 @@ theorem C05_conflict_rejected_signature (A B : MergeInput) (hA : Loaded A.schema
 
 /-- C05, a union with different members -/
 theorem C05_conflict_rejected_union (A B : MergeInput) (hA : Loaded A.schema) (hB : Loaded B.schema)
-    (h : UnionMembersDiffer A.schema B.schema) : Rejected2 A B := by
+    (h : UnionMembersDiffer A.schema B.schema) : Rejected2 facts A B := by
+  rw [C05_facts]
   obtain ⟨a, b, hs, hka, hkb, hm⟩ := h
   have hn := hs.2.2.1
   have hN := hs.2.2.2.2
@@ -156,76 +125,12 @@ theorem C05_conflict_rejected_union (A B : MergeInput) (hA : Loaded A.schema) (h
 
 /-! ## the order of the service list -/
 
-theorem perm_two_dir {A B : MergeInput} (hA : Loaded A.schema) (hB : Loaded B.schema)
-    (h : ∃ R, mergeSchema E [A, B] = .ok R) : ∃ R, mergeSchema E [B, A] = .ok R := by
-  rw [mergeSchema_two_ok_iff, mergeTypes_ok_iff _ _ hB.types] at h
-  rw [mergeSchema_two_ok_iff, mergeTypes_ok_iff _ _ hA.types]
-  intro va hva hb vb hl
-  obtain ⟨hvb, hvbn⟩ := lookup_some hl
-  have hl' : lookup A.schema.types vb.name = some va := hvbn ▸ lookup_of_nodup hA.types hva
-  exact mergeDef_ok_symm hvbn.symm (hA.fields va hva) (hB.fields vb hvb) (h vb hvb (hvbn ▸ hb) va hl')
-
 /-- C05, order of two services: whether two services are accepted does not depend on the order in
     which they are listed. Full. -/
 theorem C05_perm_two (A B : MergeInput) (hA : Loaded A.schema) (hB : Loaded B.schema) :
     (∃ R, mergeSchema facts [A, B] = .ok R) ↔ (∃ R, mergeSchema facts [B, A] = .ok R) := by
   rw [C05_facts]
   exact ⟨perm_two_dir hA hB, perm_two_dir hB hA⟩
-
-/-- the type an item belongs to -/
-def _root_.PebblesVerif.SchemaUnion.Item.owner : Item → String
-  | .type n _ => n
-  | .field T _ _ _ => T
-  | .arg T _ _ _ _ => T
-  | .enumValue T _ => T
-  | .member U _ => U
-  | .iface T _ => T
-
-theorem defItems_owner {d : TypeDef} {it : Item} (h : it ∈ defItems d) : it.owner = d.name := by
-  simp only [defItems, List.mem_cons, List.mem_append] at h
-  rcases h with rfl | ((((h | h) | h)) | h)
-  · rfl
-  · split at h
-    · simp only [List.mem_flatMap, List.mem_filter, fieldItems, List.mem_cons, List.mem_map] at h
-      obtain ⟨f, _, rfl | ⟨a, _, rfl⟩⟩ := h <;> rfl
-    · cases h
-  · split at h
-    · simp only [List.mem_map] at h; obtain ⟨e, _, rfl⟩ := h; rfl
-    · cases h
-  · split at h
-    · simp only [List.mem_map] at h; obtain ⟨e, _, rfl⟩ := h; rfl
-    · cases h
-  · split at h
-    · simp only [List.mem_map] at h; obtain ⟨e, _, rfl⟩ := h; rfl
-    · cases h
-
-/-- an item of a definition whose name is not `__…` -/
-def Visible (ts : List TypeDef) (it : Item) : Prop := ∃ r ∈ ts, isBuiltinName r.name = false ∧ it ∈ defItems r
-
-/-- after a successful merge the visible items of the result (union members aside: a refilled
-    "broken" union takes them from `PossibleTypes`) are exactly the visible items of the inputs -/
-theorem visible_iff {l : List MergeInput} {R : Schema} (h : mergeSchema facts l = .ok R)
-    (hroot : ∀ i ∈ l, RootsAreObjects i.schema) (hnode : NodeAgree l) (hdir : DirectivesAgree (l.map (·.schema)))
-    (it : Item) (hm : ∀ U m, it ≠ .member U m) :
-    Visible R.types it ↔ ∃ i ∈ l, Visible i.schema.types it := by
-  have hsup := C03_superset_partial l R h hroot hnode hdir
-  have hni := C03_no_invention l R h hroot
-  constructor
-  · rintro ⟨r, hr, hb, hit⟩
-    have : it ∈ typesItems R.types := by simp only [typesItems, List.mem_flatMap]; exact ⟨r, hr, hit⟩
-    rcases hni.1 it this with ⟨S, hS, hSi⟩ | ⟨U, m, he, _⟩
-    · obtain ⟨i, hi, rfl⟩ := List.mem_map.mp hS
-      simp only [typesItems, List.mem_flatMap] at hSi
-      obtain ⟨d, hd, hdi⟩ := hSi
-      refine ⟨i, hi, d, hd, ?_, hdi⟩
-      rw [← defItems_owner hdi, defItems_owner hit]; exact hb
-    · exact absurd he (hm U m)
-  · rintro ⟨i, hi, d, hd, hb, hdi⟩
-    have := hsup.1 i.schema (List.mem_map_of_mem hi) d hd hb it hdi
-    simp only [typesItems, List.mem_flatMap] at this
-    obtain ⟨r, hr, hri⟩ := this
-    refine ⟨r, hr, ?_, hri⟩
-    rw [← defItems_owner hri, defItems_owner hdi]; exact hb
 
 /-
 FULL STATEMENT (false of the code: `C05_perm_false`, `C05_perm_false_node`):
@@ -252,14 +157,6 @@ theorem C05_perm_result_partial (l l' : List MergeInput) (hp : l.Perm l') (R R' 
   · rintro ⟨i, hi, hv⟩; exact ⟨i, hp.mem_iff.mpr hi, hv⟩
 
 /-! ## … and what is false -/
-
-def Accepted (F : Facts) (l : List MergeInput) : Prop := ∃ R, mergeSchema F l = .ok R
-instance (F : Facts) (l : List MergeInput) : Decidable (Accepted F l) :=
-  match h : mergeSchema F l with
-  | .ok R => isTrue ⟨R, h⟩
-  | .error _ => isFalse (fun ⟨R, hR⟩ => by rw [h] at hR; cases hR)
-
-instance (S : Schema) : Decidable (FieldsNodup S) := by unfold FieldsNodup; infer_instance
 
 /-- NEGATION of order independence for three services (repaired tree; open finding
     C05-order-nway): `T{x,y}`, `T{x,y}`, `T{z}` is accepted, `T{x,y}`, `T{z}`, `T{x,y}` is rejected.
